@@ -1,3 +1,4 @@
+From Coq Require Import NArith.
 (* Run/RunC12.v — correspondence for C12: an observed execution of generated ECAL programs
    (2..16 threads entering named mutex blocks, every exit kind) against the Spec's occupancy
    automaton and against the model.
@@ -38,7 +39,7 @@ Definition dec_ev (c : N) : tev :=
   end%N.
 
 Record ecase := mkCase {
-  e_id : nat;
+  e_id : N;
   e_threads : list (N * list N);
   e_trace : list N;
   e_counter : N;
@@ -47,7 +48,7 @@ Record ecase := mkCase {
 }.
 
 Record case := mkDCase {
-  c_id : nat;
+  c_id : N;
   c_threads : list (N * list op);   (* thread id, program (entries / exits / increments in order) *)
   c_trace : list tev;               (* observed *)
   c_counter : N;                    (* observed: final value of the shared counter *)
@@ -170,7 +171,7 @@ Definition decode (e : ecase) : case :=
   mkDCase (e_id e) (map (fun p => (fst p, map dec_op (snd p))) (e_threads e))
           (map dec_ev (e_trace e)) (e_counter e) (e_maxocc e) (e_completed e).
 
-Definition check_all (cs : list ecase) : list (nat * nat) :=
+Definition check_all (cs : list ecase) : list (N * nat) :=
   filter (fun p => negb (Nat.eqb (snd p) 0)) (map (fun e => (e_id e, verdict (decode e))) cs).
 
 (* diagnostics for a failing case: index of the first trace event the Spec automaton /
